@@ -30,23 +30,30 @@ Fs == ("/w/service.yaml" :> [kind |-> "file", docs |-> <<M("name" :> S("svc") @@
    @@ ("/w/multi.json" :> [kind |-> "file", docs |-> <<Doc("a", I("1")), Doc("b", L(<<S("x"), S("")>>))>>])
    @@ ("/w/sub/service.yaml" :> [kind |-> "file", docs |-> <<M("name" :> S("sub") @@ "zone" :> I("2"))>>])   \* same base name, another directory
    @@ ("/w/over.yaml" :> [kind |-> "file", docs |-> <<M("$parent" :> S("service") @@ "extra" :> I("1"))>>])   \* a plain name whose parent comes from $parent
+   (* layers that fail in OTHER ways than a missing value: no parent file for the name, a list over a map *)
+   @@ ("/w/orphan.child.yaml" :> [kind |-> "file", docs |-> <<Doc("c", I("1"))>>])
+   @@ ("/w/kind.yaml" :> [kind |-> "file", docs |-> <<Doc("m", Doc("a", I("1")))>>])
+   @@ ("/w/kind.over.yaml" :> [kind |-> "file", docs |-> <<Doc("m", L(<<I("1")>>))>>])
    @@ ("/w/notes.txt" :> [kind |-> "other"])
    @@ ("/w/conf.ini" :> [kind |-> "other"])
 
 (* flags, --opt=value, words, non-bkl files, layer files, virtual names, unsupported extensions, failing layers *)
 ArgKinds == {"-f", "--opt=service.yaml", "get", "notes.txt", "service.yaml", "service.test.toml",
              "service.test.json", "service.yml", "conf.ini", "broken.yaml", "multi.yaml", "missing.yaml",
-             "--", "service.test.json-pretty", "./service.yaml", "multi.jsonl", "sub/service.yaml", "over.yaml", "over.json"}
+             "--", "service.test.json-pretty", "./service.yaml", "multi.jsonl", "sub/service.yaml", "over.yaml", "over.json",
+             "orphan.child.yaml", "kind.over.json"}
+Failing == {"broken.yaml", "orphan.child.yaml", "kind.over.json"}
 
 RECURSIVE Vectors(_)
 Vectors(n) == IF n = 0 THEN {<<>>} ELSE {Append(v, a) : v \in Vectors(n - 1), a \in ArgKinds}
 AllVectors == UNION {Vectors(n) : n \in 0..MaxArgs}
 
 IsBklFile(a) == a \in {"service.yaml", "service.test.toml", "service.test.json", "service.yml", "broken.yaml",
-                       "multi.yaml", "service.test.json-pretty", "./service.yaml", "multi.jsonl", "sub/service.yaml", "over.yaml", "over.json"}
+                       "multi.yaml", "service.test.json-pretty", "./service.yaml", "multi.jsonl", "sub/service.yaml", "over.yaml", "over.json",
+                       "orphan.child.yaml", "kind.over.json"}
 Law(v) ==
   LET w == WrapOp(Fs, W, v, <<>>) IN
-  /\ w.exec = ~\E i \in DOMAIN v : v[i] = "broken.yaml"
+  /\ w.exec = ~\E i \in DOMAIN v : v[i] \in Failing
   /\ \A i \in DOMAIN v : (w.argv[i].kind = "same") = ~IsBklFile(v[i])
   /\ \A i \in DOMAIN v : w.argv[i].kind = "same" => w.argv[i].value = v[i]
 
